@@ -270,9 +270,36 @@ def run(run, ix, tier):
     run.rule('V-R2', floor=8)
     run.rule('V-R3', floor=8)
     run.rule('V-R4', floor=3)
+    run.rule('V-R5', floor=3, desc='the float conversion kernels keep no state')
     check_from_float(run, ix, 'from_float', 53, 53)
     check_from_float(run, ix, 'from_npfloat', 113, 113)
     n = check_call_sites(run, ix)
     run.stats['from_float_call_sites'] = n
     check_to_float(run, ix)
     check_wiring(run, ix)
+    check_pure(run, ix)
+
+
+def check_pure(run, ix):
+    """V-R5: from_float / from_npfloat / to_float are pure functions of their arguments: they neither
+    read nor write a module-level container.  A memo keyed by the float alone would hand a value
+    rounded for one precision to a later exact request."""
+    m = ix.module(LIBMPF)
+    containers = set()
+    for name, value, st, g in m.toplevel_assigns:
+        if isinstance(value, (ast.Dict, ast.List, ast.Set, ast.ListComp, ast.DictComp)) or \
+                (isinstance(value, ast.Call) and norm(value.func) in ('dict', 'list', 'set')):
+            containers.add(name)
+    for name in ('from_float', 'from_npfloat', 'to_float'):
+        f = ix.func(LIBMPF, name)
+        local = set(f.all_params()) | set(x.id for x in _walk_own(f.node)
+                                          if isinstance(x, ast.Name) and isinstance(x.ctx, ast.Store))
+        used = sorted(set(x.id for x in _walk_own(f.node) if isinstance(x, ast.Name) and
+                          x.id in containers and x.id not in local))
+        glob = [x for x in _walk_own(f.node) if isinstance(x, ast.Global)]
+        if used or glob:
+            run.fail(F('V-R5', LIBMPF, name, 'def %s' % name, 'the conversion consults module-level state (%s): its '
+                       'result then depends on earlier calls (a value rounded at a low precision can be served to '
+                       'an exact conversion)' % ', '.join(used or [norm(glob[0])]), line=f.lineno))
+        else:
+            run.ok('V-R5', '%s touches no module-level container' % name)
